@@ -122,4 +122,4 @@ def shrink_candidates(ops):
     return cands
 
 # the queue refinement theorems C09 relies on (goring ring buffer, mpsc) and their correspondence
-ALSO = ["C09ring"]
+ALSO = ["C09ring", "C09disp"]
